@@ -474,7 +474,7 @@ class ProdParser:
             :store: filled keys defined by Prod.toStore
             :unusedtokens: token generator containing tokens not used yet
         """
-        tokens = self._texttotokens(text)
+        tokens = basetokens = self._texttotokens(text)
 
         if not tokens:
             self._log.error('No content to parse.')
@@ -625,7 +625,7 @@ class ProdParser:
                     if prod.nextSor:
                         # following is S or other token (e.g. ",")?
                         # remove S if
-                        tokens = self._SorTokens(tokens, ',/')
+                        tokens = self._SorTokens(basetokens, ',/')
                         defaultS = False
                     else:
                         defaultS = True
